@@ -6,4 +6,927 @@ import CpProofs.C18
 namespace CpProofs.C18X
 open CpModel.Bus
 
+/-! ### frames: publish nesting is well bracketed -/
+
+/-- `w'` continues `w`: same publish depth, the journal only grew, and everything journalled in
+    between happened strictly deeper (inside publish frames opened and closed in between). -/
+def Frame (w w' : XW) : Prop :=
+  w'.depth = w.depth ∧ ∃ es, w'.j = w.j ++ es ∧ ∀ e ∈ es, w.depth < e.depth
+
+theorem Frame.refl (w : XW) : Frame w w := ⟨rfl, [], by simp, by simp⟩
+
+theorem Frame.of_eq {w w' : XW} (hd : w'.depth = w.depth) (hj : w'.j = w.j) : Frame w w' :=
+  ⟨hd, [], by simp [hj], by simp⟩
+
+theorem Frame.trans {a b c : XW} (h1 : Frame a b) (h2 : Frame b c) : Frame a c := by
+  obtain ⟨d1, e1, j1, m1⟩ := h1
+  obtain ⟨d2, e2, j2, m2⟩ := h2
+  refine ⟨d2.trans d1, e1 ++ e2, by rw [j2, j1, List.append_assoc], ?_⟩
+  intro e he
+  rcases List.mem_append.mp he with h | h
+  · exact m1 e h
+  · rw [← d1]; exact m2 e h
+
+def PubFrame (pub : XPub) : Prop := ∀ w c, Frame w (pub w c).1
+
+def ReFrame (re : Re) : Prop := PubFrame re.pub ∧ ∀ w m, Frame w (re.call w m).1
+
+theorem xbind_frame {w : XW} {r : XW × XO} {k : XW → XW × XO}
+    (h1 : Frame w r.1) (h2 : ∀ w1, Frame w1 (k w1).1) : Frame w (xbind r k).1 := by
+  obtain ⟨w1, o⟩ := r
+  cases o with
+  | none => exact h1.trans (h2 w1)
+  | some e => exact h1
+
+theorem setSt_frame (w : XW) (s : St) : Frame w (setSt w s) := Frame.of_eq rfl rfl
+
+theorem stopW_frame (pub : XPub) (hp : PubFrame pub) (w : XW) : Frame w (stopW pub w).1 := by
+  unfold stopW
+  refine xbind_frame ((setSt_frame w _).trans (hp _ _)) fun w1 => ?_
+  refine xbind_frame (hp _ _) fun w2 => ?_
+  exact (setSt_frame w2 _).trans (hp _ _)
+
+theorem exitW_frame (pub : XPub) (hp : PubFrame pub) (w : XW) : Frame w (exitW pub w).1 := by
+  have hb : Frame w (xbind (stopW pub w) fun w1 =>
+         xbind (pub (setSt w1 .exiting) .log) fun w2 =>
+         xbind (pub w2 .exit) fun w3 => pub w3 .log).1 := by
+    refine xbind_frame (stopW_frame pub hp w) fun w1 => ?_
+    refine xbind_frame ((setSt_frame w1 _).trans (hp _ _)) fun w2 => ?_
+    exact xbind_frame (hp _ _) fun w3 => hp _ _
+  unfold exitW
+  generalize (xbind (stopW pub w) fun w1 =>
+         xbind (pub (setSt w1 .exiting) .log) fun w2 =>
+         xbind (pub w2 .exit) fun w3 => pub w3 .log) = r at hb
+  obtain ⟨w', o⟩ := r
+  cases o with
+  | none => dsimp only; split <;> exact hb
+  | some e => dsimp only; split <;> exact hb
+
+theorem startFailW_frame (pub : XPub) (hp : PubFrame pub) (w3 : XW) (e : XExc) :
+    Frame w3 (startFailW pub w3 e).1 := by
+  unfold startFailW
+  split
+  · exact Frame.refl w3
+  · refine xbind_frame (hp _ _) fun w4 => ?_
+    have hx := exitW_frame pub hp w4
+    generalize exitW pub w4 = rx at hx
+    obtain ⟨w5, ox⟩ := rx
+    cases ox with
+    | none => exact hx
+    | some e' => dsimp only; split <;> exact hx
+
+theorem startW_frame (pub : XPub) (hp : PubFrame pub) (w : XW) : Frame w (startW pub w).1 := by
+  unfold startW
+  refine xbind_frame ?_ fun w1 => ?_
+  · exact (Frame.of_eq (w' := setSt { w with atexit := w.atexit + 1 } .starting) rfl rfl).trans (hp _ _)
+  · have hb : Frame w1 (xbind (pub w1 .start) fun w2 => pub (setSt w2 .started) .log).1 :=
+      xbind_frame (hp _ _) fun w2 => (setSt_frame w2 _).trans (hp _ _)
+    generalize (xbind (pub w1 .start) fun w2 => pub (setSt w2 .started) .log) = r at hb
+    obtain ⟨w3, o⟩ := r
+    cases o with
+    | none => exact hb
+    | some e => exact hb.trans (startFailW_frame pub hp w3 e)
+
+theorem callWith_frame (pub : XPub) (hp : PubFrame pub) (w : XW) (m : Meth) :
+    Frame w (callWith pub w m).1 := by
+  cases m with
+  | start => exact startW_frame pub hp w
+  | stop => exact stopW_frame pub hp w
+  | exit => exact exitW_frame pub hp w
+  | restart =>
+    exact (Frame.of_eq (w' := { w with bus := { w.bus with execv := true } }) rfl rfl).trans
+      (exitW_frame pub hp _)
+  | graceful =>
+    exact xbind_frame (hp _ _) fun w1 => hp _ _
+
+theorem runActsX_frame (re : Re) (h : ReFrame re) (acts : List Act) (w : XW) :
+    Frame w (runActsX re w acts).1 := by
+  induction acts generalizing w with
+  | nil => exact Frame.refl w
+  | cons a rest ih =>
+    cases a with
+    | sub ch id prio out =>
+      simp only [runActsX]
+      exact (Frame.of_eq (w' := { w with bus := subscribe w.bus ch ⟨id, prio, [], out⟩ }) rfl rfl).trans (ih _)
+    | unsub ch id =>
+      simp only [runActsX]
+      exact (Frame.of_eq (w' := { w with bus := unsubscribe w.bus ch id }) rfl rfl).trans (ih _)
+    | pub ch =>
+      simp only [runActsX]
+      have hp := h.1 w ch
+      generalize re.pub w ch = r at hp
+      obtain ⟨w', o⟩ := r
+      cases o with
+      | none => exact hp.trans (ih w')
+      | some e => exact hp
+    | call m =>
+      simp only [runActsX]
+      have hp := h.2 w m
+      generalize re.call w m = r at hp
+      obtain ⟨w', o⟩ := r
+      cases o with
+      | none => exact hp.trans (ih w')
+      | some e => exact hp
+
+/-! ### the publish loop: what runs directly is a prefix of the snapshot -/
+
+/-- entries journalled at publish depth `d` (the listeners one particular publish invoked itself) -/
+def directAt (d : Nat) (es : List XEntry) : List XEntry := es.filter (fun e => e.depth = d)
+
+def esig (e : XEntry) : Chan × Nat × Nat := (e.ch, e.id, e.prio)
+def lsig (ch : Chan) (l : Listener) : Chan × Nat × Nat := (ch, l.id, l.prio)
+
+theorem directAt_append (d : Nat) (a b : List XEntry) :
+    directAt d (a ++ b) = directAt d a ++ directAt d b := by simp [directAt]
+
+theorem directAt_deeper {d : Nat} {es : List XEntry} (h : ∀ e ∈ es, d < e.depth) :
+    directAt d es = [] := by
+  simp only [directAt, List.filter_eq_nil_iff]
+  intro e he
+  have := h e he
+  simp; omega
+
+/-- What the loop over `items` does to the world, whatever the listeners re-enter.
+    `PB` is an optional invariant of the subscription table (e.g. "log listeners never raise"):
+    with it, a loop that ends in `ChannelFailures` has run every item. -/
+def LoopSpec (PB : XW → Prop) (lok : Prop) (ch : Chan) (items : List Listener) (w : XW) (r : XW × XO) : Prop :=
+  ∃ es inv rest, r.1.depth = w.depth ∧ r.1.j = w.j ++ es ∧ (∀ e ∈ es, w.depth ≤ e.depth) ∧
+    items = inv ++ rest ∧ (directAt w.depth es).map esig = inv.map (lsig ch) ∧
+    (r.2 = none → rest = []) ∧
+    (PB w → PB r.1 ∧ (lok → ch ≠ .log → ∀ ids, r.2 = some (.chanFail ids) → rest = []))
+
+theorem LoopSpec.cont {PB : XW → Prop} {lok : Prop} {ch : Chan} {l : Listener} {rest : List Listener}
+    {w wm : XW} {mid : List XEntry} {st : St} {r : XW × XO}
+    (hd : wm.depth = w.depth) (hj : wm.j = w.j ++ ⟨ch, l.id, st, l.prio, w.depth⟩ :: mid)
+    (hmid : ∀ x ∈ mid, w.depth < x.depth) (hP : PB w → PB wm)
+    (ih : LoopSpec PB lok ch rest wm r) : LoopSpec PB lok ch (l :: rest) w r := by
+  obtain ⟨es', inv', rest', h1, h2, h3, h4, h5, h6, h7⟩ := ih
+  refine ⟨⟨ch, l.id, st, l.prio, w.depth⟩ :: mid ++ es', l :: inv', rest', h1.trans hd, ?_, ?_, ?_, ?_, h6, ?_⟩
+  · rw [h2, hj]; simp
+  · intro e he
+    simp only [List.cons_append, List.mem_cons, List.mem_append] at he
+    rcases he with rfl | he | he
+    · exact Nat.le_refl _
+    · exact Nat.le_of_lt (hmid e he)
+    · rw [← hd]; exact h3 e he
+  · rw [h4]; rfl
+  · rw [show (⟨ch, l.id, st, l.prio, w.depth⟩ :: mid ++ es' : List XEntry) =
+        [⟨ch, l.id, st, l.prio, w.depth⟩] ++ (mid ++ es') from rfl,
+      directAt_append, directAt_append, directAt_deeper hmid, ← hd, List.map_append, List.nil_append, h5]
+    simp [directAt, esig, lsig]
+  · intro hw
+    exact h7 (hP hw)
+
+theorem LoopSpec.early {PB : XW → Prop} {lok : Prop} {ch : Chan} {l : Listener} {rest : List Listener}
+    {w w2 : XW} {mid : List XEntry} {st : St} {e : XExc}
+    (hd : w2.depth = w.depth) (hj : w2.j = w.j ++ ⟨ch, l.id, st, l.prio, w.depth⟩ :: mid)
+    (hmid : ∀ x ∈ mid, w.depth < x.depth) (hP : PB w → PB w2)
+    (hne : PB w → lok → ∀ ids, e ≠ .chanFail ids) : LoopSpec PB lok ch (l :: rest) w (w2, some e) := by
+  refine ⟨⟨ch, l.id, st, l.prio, w.depth⟩ :: mid, [l], rest, hd, hj, ?_, rfl, ?_, by simp, ?_⟩
+  · intro x hx
+    rcases List.mem_cons.mp hx with rfl | hx
+    · exact Nat.le_refl _
+    · exact Nat.le_of_lt (hmid x hx)
+  · rw [show (⟨ch, l.id, st, l.prio, w.depth⟩ :: mid : List XEntry) =
+        [⟨ch, l.id, st, l.prio, w.depth⟩] ++ mid from rfl, directAt_append, directAt_deeper hmid]
+    simp [directAt, esig, lsig]
+  · intro hw
+    refine ⟨hP hw, fun hk _ ids h => ?_⟩
+    exact absurd (Option.some.inj h) (hne hw hk ids)
+
+theorem ended_prop_ne {l : Listener} {r : XO} {e : XExc} (h : ended l r = .prop e) :
+    ∀ ids, e ≠ .chanFail ids := by
+  intro ids
+  cases r with
+  | none => simp [ended] at h
+  | some x => cases x <;> simp [ended] at h <;> subst h <;> simp
+
+structure LoopHyp (re : Re) (PB : XW → Prop) : Prop where
+  frame : ReFrame re
+  logP : ∀ w, PB w → PB (re.pub w .log).1
+  jd : ∀ (w : XW) j d, PB w → PB { w with j := j, depth := d }
+
+theorem pubLoopX_spec (re : Re) (PB : XW → Prop) (H : LoopHyp re PB) (lok : Prop)
+    (hlok : lok → ∀ w, PB w → (re.pub w .log).2 = none ∨ (re.pub w .log).2 = some .outOfFuel)
+    (ch : Chan) (items : List Listener)
+    (hacts : ∀ l ∈ items, ∀ w, PB w → PB (runActsX re w l.acts).1)
+    (w : XW) (fails : List Nat) : LoopSpec PB lok ch items w (pubLoopX re ch items w fails) := by
+  induction items generalizing w fails with
+  | nil =>
+    refine ⟨[], [], [], rfl, by simp [pubLoopX], by simp, rfl, by simp [directAt], fun _ => rfl, ?_⟩
+    intro hw
+    exact ⟨by simpa [pubLoopX] using hw, fun _ _ _ _ => rfl⟩
+  | cons l rest ih =>
+    have hrest : ∀ x ∈ rest, ∀ w, PB w → PB (runActsX re w x.acts).1 :=
+      fun x hx => hacts x (by simp [hx])
+    have hf := runActsX_frame re H.frame l.acts
+      { w with j := w.j ++ [⟨ch, l.id, w.bus.state, l.prio, w.depth⟩] }
+    have hpa := hacts l (by simp) { w with j := w.j ++ [⟨ch, l.id, w.bus.state, l.prio, w.depth⟩] }
+    simp only [pubLoopX]
+    generalize runActsX re { w with j := w.j ++ [⟨ch, l.id, w.bus.state, l.prio, w.depth⟩] } l.acts = ra at hf hpa
+    obtain ⟨w2, r⟩ := ra
+    obtain ⟨hd, mid, hj, hmid⟩ := hf
+    have hd : w2.depth = w.depth := hd
+    have hj : w2.j = w.j ++ ⟨ch, l.id, w.bus.state, l.prio, w.depth⟩ :: mid := by
+      rw [hj]; simp
+    have hmid : ∀ x ∈ mid, w.depth < x.depth := hmid
+    have hP : PB w → PB w2 := fun hw => hpa (H.jd w _ w.depth hw)
+    dsimp only
+    generalize hE : ended l r = E
+    cases E with
+    | prop e =>
+      dsimp only
+      exact LoopSpec.early hd hj hmid hP (fun _ _ => ended_prop_ne hE)
+    | out o =>
+      cases o with
+      | ok => dsimp only; exact LoopSpec.cont hd hj hmid hP (ih hrest w2 fails)
+      | kbdInt => dsimp only; exact LoopSpec.early hd hj hmid hP (fun _ _ ids => by simp)
+      | sysExit c => dsimp only; exact LoopSpec.early hd hj hmid hP (fun _ _ ids => by simp)
+      | raise =>
+        dsimp only
+        by_cases hlog : ch = .log
+        · rw [if_pos hlog]
+          exact LoopSpec.cont hd hj hmid hP (ih hrest w2 _)
+        · rw [if_neg hlog]
+          have hl1 := H.frame.1 w2 .log
+          have hl2 := H.logP w2
+          have hl3 := fun hk => hlok hk w2
+          generalize re.pub w2 .log = rl at hl1 hl2 hl3
+          obtain ⟨w3, ol⟩ := rl
+          obtain ⟨hd3, mid3, hj3, hmid3⟩ := hl1
+          have hd3' : w3.depth = w.depth := hd3.trans hd
+          have hj3' : w3.j = w.j ++ ⟨ch, l.id, w.bus.state, l.prio, w.depth⟩ :: (mid ++ mid3) := by
+            rw [hj3, hj]; simp
+          have hmid3' : ∀ x ∈ mid ++ mid3, w.depth < x.depth := by
+            intro x hx
+            rcases List.mem_append.mp hx with h | h
+            · exact hmid x h
+            · rw [← hd]; exact hmid3 x h
+          have hP3 : PB w → PB w3 := fun hw => hl2 (hP hw)
+          cases ol with
+          | none => dsimp only; exact LoopSpec.cont hd3' hj3' hmid3' hP3 (ih hrest w3 _)
+          | some e =>
+            dsimp only
+            refine LoopSpec.early hd3' hj3' hmid3' hP3 ?_
+            intro hw hk ids
+            rcases hl3 hk (hP hw) with h | h
+            · simp at h
+            · simp only [Option.some.injEq] at h; subst h; simp
+
+/-! ### `publish`: snapshot semantics, whatever the listeners re-enter -/
+
+/-- What `publish ch` does when `ch` has the listeners `ls` at entry. -/
+def PubSpec (PB : XW → Prop) (lok : Prop) (ch : Chan) (ls : List Listener) (w : XW)
+    (r : XW × XO) : Prop :=
+  ∃ es inv rest, r.1.depth = w.depth ∧ r.1.j = w.j ++ es ∧ (∀ e ∈ es, w.depth + 1 ≤ e.depth) ∧
+    sortByPrio ls = inv ++ rest ∧ (directAt (w.depth + 1) es).map esig = inv.map (lsig ch) ∧
+    (r.2 = none → rest = []) ∧
+    (PB w → PB r.1 ∧ (lok → ch ≠ .log → ∀ ids, r.2 = some (.chanFail ids) → rest = []))
+
+theorem publishWith_spec (re : Re) (PB : XW → Prop) (H : LoopHyp re PB) (lok : Prop)
+    (hlok : lok → ∀ w, PB w → (re.pub w .log).2 = none ∨ (re.pub w .log).2 = some .outOfFuel)
+    (w : XW) (ch : Chan) (ls : List Listener) (hl : lookup w.bus.chans ch = some ls)
+    (hacts : ∀ l ∈ ls, ∀ w', PB w' → PB (runActsX re w' l.acts).1) :
+    PubSpec PB lok ch ls w (publishWith re w ch) := by
+  have hacts' : ∀ l ∈ sortByPrio ls, ∀ w', PB w' → PB (runActsX re w' l.acts).1 :=
+    fun l hm => hacts l ((CpProofs.C18.sortByPrio_perm ls).mem_iff.mp hm)
+  have sp := pubLoopX_spec re PB H lok hlok ch (sortByPrio ls) hacts' { w with depth := w.depth + 1 } []
+  unfold publishWith
+  rw [hl]
+  dsimp only
+  generalize pubLoopX re ch (sortByPrio ls) { w with depth := w.depth + 1 } [] = r at sp
+  obtain ⟨w', o⟩ := r
+  obtain ⟨es, inv, rest, h1, h2, h3, h4, h5, h6, h7⟩ := sp
+  refine ⟨es, inv, rest, rfl, h2, h3, h4, h5, h6, fun hw => ?_⟩
+  have := h7 (H.jd w w.j (w.depth + 1) hw)
+  exact ⟨H.jd w' w'.j w.depth this.1, this.2⟩
+
+theorem publishWith_none (re : Re) (w : XW) (ch : Chan) (hl : lookup w.bus.chans ch = none) :
+    publishWith re w ch = (w, none) := by
+  unfold publishWith; rw [hl]
+
+theorem LoopHyp.trivial (re : Re) (h : ReFrame re) : LoopHyp re (fun _ => False) :=
+  ⟨h, fun _ f => f.elim, fun _ _ _ f => f.elim⟩
+
+theorem publishWith_frame (re : Re) (h : ReFrame re) : PubFrame (publishWith re) := by
+  intro w ch
+  cases hl : lookup w.bus.chans ch with
+  | none => rw [publishWith_none re w ch hl]; exact Frame.refl w
+  | some ls =>
+    obtain ⟨es, inv, rest, h1, h2, h3, _⟩ :=
+      publishWith_spec re (fun _ => False) (LoopHyp.trivial re h) False (fun f => f.elim) w ch ls hl
+        (fun _ _ _ f => f.elim)
+    exact ⟨h1, es, h2, fun e he => Nat.lt_of_succ_le (h3 e he)⟩
+
+theorem reAt_frame (n : Nat) : ReFrame (reAt n) := by
+  induction n with
+  | zero => exact ⟨fun w c => Frame.refl w, fun w m => Frame.refl w⟩
+  | succ n ih =>
+    exact ⟨publishWith_frame _ ih, callWith_frame _ (publishWith_frame _ ih)⟩
+
+/-- **C18 (re-entrant listeners) — nested publishes are well bracketed.**  Whatever the listeners
+    do (subscribe, unsubscribe, publish, call start/stop/exit/restart/graceful, raise, exit; any
+    fuel): when `publish` is left — normally or by an exception — the publish depth is what it
+    was at entry, the journal only grew, and everything journalled meanwhile lies strictly deeper. -/
+theorem publishX_frame (fuel : Nat) (w : XW) (ch : Chan) : Frame w (publishX fuel w ch).1 :=
+  publishWith_frame _ (reAt_frame fuel) w ch
+
+/-- the same for the lifecycle methods -/
+theorem callX_frame (fuel : Nat) (w : XW) (m : Meth) : Frame w (callX fuel w m).1 :=
+  callWith_frame _ (publishWith_frame _ (reAt_frame fuel)) w m
+
+/-- **C18 (re-entrant listeners) — publish iterates over a snapshot.**  For ARBITRARY listener
+    scripts: the listeners a publish invokes itself (journal entries at its own depth) are, in
+    this order, a prefix `inv` of the priority-sorted list of the listeners subscribed to the
+    channel *when the publish began* — each at most once, with the priority it had then; a
+    listener unsubscribed meanwhile still runs, one subscribed meanwhile does not, a priority
+    changed meanwhile does not reorder.  When the publish returns normally the prefix is the
+    whole snapshot. -/
+theorem publishX_snapshot (fuel : Nat) (w : XW) (ch : Chan) (ls : List Listener)
+    (hl : lookup w.bus.chans ch = some ls) :
+    ∃ es inv rest, (publishX fuel w ch).1.j = w.j ++ es ∧
+      sortByPrio ls = inv ++ rest ∧
+      (directAt (w.depth + 1) es).map esig = inv.map (lsig ch) ∧
+      (∀ e ∈ es, w.depth + 1 ≤ e.depth) ∧
+      ((publishX fuel w ch).2 = none → rest = []) := by
+  obtain ⟨es, inv, rest, _, h2, h3, h4, h5, h6, _⟩ :=
+    publishWith_spec (reAt fuel) (fun _ => False) (LoopHyp.trivial _ (reAt_frame fuel)) False
+      (fun f => f.elim) w ch ls hl (fun _ _ _ f => f.elim)
+  exact ⟨es, inv, rest, h2, h4, h5, h3, h6⟩
+
+/-! ### invariants of the subscription table that survive every re-entrant operation -/
+
+/-- A predicate on (channel, listener script) that is blind to the priority and holds for the
+    listeners a script subscribes itself (those have no actions of their own). -/
+structure ScriptInv where
+  LP : Chan → Listener → Prop
+  prio : ∀ c l p, LP c l → LP c { l with prio := p }
+  closed : ∀ c l, LP c l → ∀ ch id prio out, Act.sub ch id prio out ∈ l.acts → LP ch ⟨id, prio, [], out⟩
+
+def BusInv (I : ScriptInv) (b : Bus) : Prop :=
+  ∀ c ls, lookup b.chans c = some ls → ∀ l ∈ ls, I.LP c l
+
+theorem lookup_setChan (chans : List (Chan × List Listener)) (ch : Chan) (ls : List Listener) (c : Chan) :
+    lookup (setChan chans ch ls) c = if ch = c then some ls else lookup chans c := by
+  induction chans with
+  | nil => simp [setChan, lookup]
+  | cons x rest ih =>
+    obtain ⟨k, v⟩ := x
+    simp only [setChan]
+    by_cases hk : k = ch
+    · subst hk
+      simp only [if_true, lookup]
+      by_cases hkc : k = c <;> simp [hkc]
+    · simp only [hk, if_false, lookup, ih]
+      by_cases hkc : k = c
+      · subst hkc
+        simp [Ne.symm hk]
+      · simp [hkc]
+
+theorem subscribe_inv (I : ScriptInv) (b : Bus) (ch : Chan) (l : Listener)
+    (hb : BusInv I b) (hl : I.LP ch l) : BusInv I (subscribe b ch l) := by
+  intro c ls' hlk l' hl'
+  simp only [subscribe, lookup_setChan] at hlk
+  by_cases hc : ch = c
+  · subst hc
+    simp only [if_true, Option.some.injEq] at hlk
+    have hold : ∀ x ∈ (lookup b.chans ch).getD [], I.LP ch x := by
+      intro x hx
+      cases hlo : lookup b.chans ch with
+      | none => simp [hlo] at hx
+      | some ls => simp only [hlo, Option.getD_some] at hx; exact hb ch ls hlo x hx
+    subst hlk
+    split at hl'
+    · simp only [List.mem_map] at hl'
+      obtain ⟨x, hx, rfl⟩ := hl'
+      split
+      · exact I.prio ch x _ (hold x hx)
+      · exact hold x hx
+    · rcases List.mem_append.mp hl' with h | h
+      · exact hold l' h
+      · simp only [List.mem_singleton] at h; subst h; exact hl
+  · simp only [hc, if_false] at hlk
+    exact hb c ls' hlk l' hl'
+
+theorem unsubscribe_inv (I : ScriptInv) (b : Bus) (ch : Chan) (id : Nat)
+    (hb : BusInv I b) : BusInv I (unsubscribe b ch id) := by
+  unfold unsubscribe
+  cases hlo : lookup b.chans ch with
+  | none => exact hb
+  | some ls =>
+    dsimp only
+    split
+    · intro c ls' hlk l' hl'
+      simp only [lookup_setChan] at hlk
+      by_cases hc : ch = c
+      · subst hc
+        simp only [if_true, Option.some.injEq] at hlk
+        subst hlk
+        exact hb ch ls hlo l' (List.mem_filter.mp hl').1
+      · simp only [hc, if_false] at hlk
+        exact hb c ls' hlk l' hl'
+    · exact hb
+
+/-- the handlers preserve the invariant -/
+def RePres (I : ScriptInv) (re : Re) : Prop :=
+  (∀ w c, BusInv I w.bus → BusInv I (re.pub w c).1.bus) ∧
+  (∀ w m, BusInv I w.bus → BusInv I (re.call w m).1.bus)
+
+def PubPres (I : ScriptInv) (pub : XPub) : Prop := ∀ w c, BusInv I w.bus → BusInv I (pub w c).1.bus
+
+theorem runActsX_pres (I : ScriptInv) (re : Re) (hre : RePres I re) (acts : List Act)
+    (ha : ∀ ch id prio out, Act.sub ch id prio out ∈ acts → I.LP ch ⟨id, prio, [], out⟩)
+    (w : XW) (hw : BusInv I w.bus) : BusInv I (runActsX re w acts).1.bus := by
+  induction acts generalizing w with
+  | nil => exact hw
+  | cons a rest ih =>
+    have har : ∀ ch id prio out, Act.sub ch id prio out ∈ rest → I.LP ch ⟨id, prio, [], out⟩ :=
+      fun ch id prio out h => ha ch id prio out (List.mem_cons_of_mem _ h)
+    cases a with
+    | sub ch id prio out =>
+      simp only [runActsX]
+      exact ih har _ (subscribe_inv I w.bus ch _ hw (ha ch id prio out (by simp)))
+    | unsub ch id =>
+      simp only [runActsX]
+      exact ih har _ (unsubscribe_inv I w.bus ch id hw)
+    | pub ch =>
+      simp only [runActsX]
+      have hp := hre.1 w ch hw
+      generalize re.pub w ch = r at hp
+      obtain ⟨w', o⟩ := r
+      cases o with
+      | none => exact ih har w' hp
+      | some e => exact hp
+    | call m =>
+      simp only [runActsX]
+      have hp := hre.2 w m hw
+      generalize re.call w m = r at hp
+      obtain ⟨w', o⟩ := r
+      cases o with
+      | none => exact ih har w' hp
+      | some e => exact hp
+
+theorem publishWith_pres (I : ScriptInv) (re : Re) (hf : ReFrame re) (hre : RePres I re) :
+    PubPres I (publishWith re) := by
+  intro w ch hw
+  cases hl : lookup w.bus.chans ch with
+  | none => rw [publishWith_none re w ch hl]; exact hw
+  | some ls =>
+    obtain ⟨_, _, _, _, _, _, _, _, _, h7⟩ :=
+      publishWith_spec re (fun w => BusInv I w.bus) ⟨hf, fun w h => hre.1 w .log h, fun _ _ _ h => h⟩ False (fun f => f.elim) w ch ls hl
+        (fun l hm w' hw' => runActsX_pres I re hre l.acts (I.closed ch l (hw ch ls hl l hm)) w' hw')
+    exact (h7 hw).1
+
+theorem xbind_pres {I : ScriptInv} {r : XW × XO} {k : XW → XW × XO}
+    (h1 : BusInv I r.1.bus) (h2 : ∀ w1, BusInv I w1.bus → BusInv I (k w1).1.bus) :
+    BusInv I (xbind r k).1.bus := by
+  obtain ⟨w1, o⟩ := r
+  cases o with
+  | none => exact h2 w1 h1
+  | some e => exact h1
+
+theorem stopW_pres (I : ScriptInv) (pub : XPub) (hp : PubPres I pub) (w : XW) (hw : BusInv I w.bus) :
+    BusInv I (stopW pub w).1.bus := by
+  unfold stopW
+  refine xbind_pres (hp _ _ hw) fun w1 h1 => ?_
+  refine xbind_pres (hp _ _ h1) fun w2 h2 => ?_
+  exact hp _ _ h2
+
+theorem exitW_pres (I : ScriptInv) (pub : XPub) (hp : PubPres I pub) (w : XW) (hw : BusInv I w.bus) :
+    BusInv I (exitW pub w).1.bus := by
+  have hb : BusInv I (xbind (stopW pub w) fun w1 =>
+         xbind (pub (setSt w1 .exiting) .log) fun w2 =>
+         xbind (pub w2 .exit) fun w3 => pub w3 .log).1.bus := by
+    refine xbind_pres (stopW_pres I pub hp w hw) fun w1 h1 => ?_
+    refine xbind_pres (hp _ _ h1) fun w2 h2 => ?_
+    exact xbind_pres (hp _ _ h2) fun w3 h3 => hp _ _ h3
+  unfold exitW
+  generalize (xbind (stopW pub w) fun w1 =>
+         xbind (pub (setSt w1 .exiting) .log) fun w2 =>
+         xbind (pub w2 .exit) fun w3 => pub w3 .log) = r at hb
+  obtain ⟨w', o⟩ := r
+  cases o with
+  | none => dsimp only; split <;> exact hb
+  | some e => dsimp only; split <;> exact hb
+
+theorem startFailW_pres (I : ScriptInv) (pub : XPub) (hp : PubPres I pub) (w3 : XW) (e : XExc)
+    (hw : BusInv I w3.bus) : BusInv I (startFailW pub w3 e).1.bus := by
+  unfold startFailW
+  split
+  · exact hw
+  · refine xbind_pres (hp _ _ hw) fun w4 h4 => ?_
+    have hx := exitW_pres I pub hp w4 h4
+    generalize exitW pub w4 = rx at hx
+    obtain ⟨w5, ox⟩ := rx
+    cases ox with
+    | none => exact hx
+    | some e' => dsimp only; split <;> exact hx
+
+theorem startW_pres (I : ScriptInv) (pub : XPub) (hp : PubPres I pub) (w : XW) (hw : BusInv I w.bus) :
+    BusInv I (startW pub w).1.bus := by
+  unfold startW
+  refine xbind_pres (hp _ _ hw) fun w1 h1 => ?_
+  have hb : BusInv I (xbind (pub w1 .start) fun w2 => pub (setSt w2 .started) .log).1.bus :=
+    xbind_pres (hp _ _ h1) fun w2 h2 => hp _ _ h2
+  generalize (xbind (pub w1 .start) fun w2 => pub (setSt w2 .started) .log) = r at hb
+  obtain ⟨w3, o⟩ := r
+  cases o with
+  | none => exact hb
+  | some e => exact startFailW_pres I pub hp w3 e hb
+
+theorem callWith_pres (I : ScriptInv) (pub : XPub) (hp : PubPres I pub) (w : XW) (m : Meth)
+    (hw : BusInv I w.bus) : BusInv I (callWith pub w m).1.bus := by
+  cases m with
+  | start => exact startW_pres I pub hp w hw
+  | stop => exact stopW_pres I pub hp w hw
+  | exit => exact exitW_pres I pub hp w hw
+  | restart => exact exitW_pres I pub hp _ hw
+  | graceful => exact xbind_pres (hp _ _ hw) fun w1 h1 => hp _ _ h1
+
+theorem reAt_pres (I : ScriptInv) (n : Nat) : RePres I (reAt n) := by
+  induction n with
+  | zero => exact ⟨fun w c h => h, fun w m h => h⟩
+  | succ n ih =>
+    have hp := publishWith_pres I (reAt n) (reAt_frame n) ih
+    exact ⟨hp, fun w m h => callWith_pres I _ hp w m h⟩
+
+/-- Every `ScriptInv` invariant of the subscription table survives `publish` and the lifecycle
+    methods, whatever the listeners re-enter. -/
+theorem publishX_pres (I : ScriptInv) (fuel : Nat) : PubPres I (publishX fuel) :=
+  publishWith_pres I _ (reAt_frame fuel) (reAt_pres I fuel)
+
+theorem callX_pres (I : ScriptInv) (fuel : Nat) (w : XW) (m : Meth) (hw : BusInv I w.bus) :
+    BusInv I (callX fuel w m).1.bus :=
+  callWith_pres I _ (publishX_pres I fuel) w m hw
+
+/-! ### listeners that re-enter through subscribe / unsubscribe / publish only (`NoCalls`) -/
+
+/-- no script in the table calls a lifecycle method -/
+def ncInv : ScriptInv where
+  LP := fun _ l => ∀ a ∈ l.acts, ∀ m, a ≠ .call m
+  prio := fun _ _ _ h => h
+  closed := fun _ _ _ _ _ _ _ _ => by intro a ha; simp at ha
+
+/-- decidable form, for concrete buses -/
+def noCallsB (b : Bus) : Bool :=
+  b.chans.all fun cl => cl.2.all fun l => l.acts.all fun a => match a with | .call _ => false | _ => true
+
+def NoCalls (b : Bus) : Prop := BusInv ncInv b
+
+theorem lookup_mem {chans : List (Chan × List Listener)} {c : Chan} {ls : List Listener}
+    (h : lookup chans c = some ls) : (c, ls) ∈ chans := by
+  induction chans with
+  | nil => simp [lookup] at h
+  | cons x rest ih =>
+    obtain ⟨k, v⟩ := x
+    simp only [lookup] at h
+    split at h
+    · rename_i hk; subst hk; simp only [Option.some.injEq] at h; subst h; simp
+    · exact List.mem_cons_of_mem _ (ih h)
+
+theorem noCalls_of_bool {b : Bus} (h : noCallsB b = true) : NoCalls b := by
+  intro c ls hl l hm a ha m hcall
+  simp only [noCallsB, List.all_eq_true] at h
+  have := h (c, ls) (lookup_mem hl) l hm a ha
+  subst hcall
+  simp at this
+
+/-- the control part of the world: everything but journal, depth and subscription table -/
+def ctl (w : XW) : St × Bool × List St × Nat × Nat :=
+  (w.bus.state, w.bus.execv, w.tr, w.atexit, w.warns)
+
+def NCW (c : St × Bool × List St × Nat × Nat) (w : XW) : Prop := NoCalls w.bus ∧ ctl w = c
+
+def PubNC (pub : XPub) : Prop := ∀ c w ch, NCW c w → NCW c (pub w ch).1
+
+theorem unsubscribe_execv (b : Bus) (ch : Chan) (id : Nat) : (unsubscribe b ch id).execv = b.execv := by
+  unfold unsubscribe; split
+  · rfl
+  · split <;> rfl
+
+theorem runActsX_nc (re : Re) (hp : PubNC re.pub) (acts : List Act)
+    (hno : ∀ a ∈ acts, ∀ m, a ≠ .call m)
+    (c : St × Bool × List St × Nat × Nat) (w : XW) (hw : NCW c w) : NCW c (runActsX re w acts).1 := by
+  induction acts generalizing w with
+  | nil => exact hw
+  | cons a rest ih =>
+    have hr : ∀ a ∈ rest, ∀ m, a ≠ .call m := fun a h => hno a (List.mem_cons_of_mem _ h)
+    cases a with
+    | sub ch id prio out =>
+      simp only [runActsX]
+      refine ih hr _ ⟨subscribe_inv ncInv w.bus ch _ hw.1 (by intro a ha; simp at ha), ?_⟩
+      rw [← hw.2]; rfl
+    | unsub ch id =>
+      simp only [runActsX]
+      refine ih hr _ ⟨unsubscribe_inv ncInv w.bus ch id hw.1, ?_⟩
+      rw [← hw.2]
+      simp only [ctl, CpProofs.C18.unsubscribe_state, unsubscribe_execv]
+    | pub ch =>
+      simp only [runActsX]
+      have h := hp c w ch hw
+      generalize re.pub w ch = r at h
+      obtain ⟨w', o⟩ := r
+      cases o with
+      | none => exact ih hr w' h
+      | some e => exact h
+    | call m => exact absurd rfl (hno (.call m) (by simp) m)
+
+theorem publishWith_nc (re : Re) (hf : ReFrame re) (hp : PubNC re.pub) : PubNC (publishWith re) := by
+  intro c w ch hw
+  cases hl : lookup w.bus.chans ch with
+  | none => rw [publishWith_none re w ch hl]; exact hw
+  | some ls =>
+    obtain ⟨_, _, _, _, _, _, _, _, _, h7⟩ :=
+      publishWith_spec re (NCW c) ⟨hf, fun w h => hp c w .log h, fun _ _ _ h => h⟩ False
+        (fun f => f.elim) w ch ls hl
+        (fun l hm w' hw' => runActsX_nc re hp l.acts (hw.1 ch ls hl l hm) c w' hw')
+    exact (h7 hw).1
+
+theorem reAt_nc (n : Nat) : PubNC (reAt n).pub := by
+  induction n with
+  | zero => intro c w ch h; exact h
+  | succ n ih => exact publishWith_nc _ (reAt_frame n) ih
+
+/-- **C18 (re-entrant listeners)** — for ARBITRARY scripts without lifecycle calls (re-entrant
+    subscribe / unsubscribe / publish at any depth, failing log listeners, any outcome):
+    `publish` changes neither the state, nor `execv`, nor the state trace, nor the atexit table. -/
+theorem publishX_nc (fuel : Nat) : PubNC (publishX fuel) :=
+  publishWith_nc _ (reAt_frame fuel) (reAt_nc fuel)
+
+theorem PubNC.keep {pub : XPub} (hp : PubNC pub) (w : XW) (ch : Chan) (hi : NoCalls w.bus) :
+    NoCalls (pub w ch).1.bus ∧ (pub w ch).1.bus.state = w.bus.state ∧
+    (pub w ch).1.bus.execv = w.bus.execv ∧ (pub w ch).1.tr = w.tr := by
+  have h := hp (ctl w) w ch ⟨hi, rfl⟩
+  obtain ⟨h1, h2⟩ := h
+  simp only [ctl, Prod.mk.injEq] at h2
+  exact ⟨h1, h2.1, h2.2.1, h2.2.2.1⟩
+
+/-- `r` continues `w` with exactly the state assignments `p`, ending in state `s` -/
+def TrSt (w r : XW) (p : List St) (s : St) : Prop :=
+  r.tr = w.tr ++ p ∧ r.bus.state = s ∧ r.bus.execv = w.bus.execv ∧ NoCalls r.bus
+
+theorem TrSt.pub {pub : XPub} (hp : PubNC pub) {w r : XW} {p : List St} {s : St} (h : TrSt w r p s)
+    (ch : Chan) : TrSt w (pub r ch).1 p s := by
+  obtain ⟨k1, k2, k3, k4⟩ := hp.keep r ch h.2.2.2
+  exact ⟨k4.trans h.1, k2.trans h.2.1, k3.trans h.2.2.1, k1⟩
+
+theorem TrSt.set {w r : XW} {p : List St} {s : St} (h : TrSt w r p s) (s' : St) :
+    TrSt w (setSt r s') (p ++ [s']) s' :=
+  ⟨by simp [setSt, h.1], rfl, h.2.2.1, h.2.2.2⟩
+
+theorem stopW_trace (pub : XPub) (hp : PubNC pub) (w0 w : XW) (p : List St) (s : St)
+    (h : TrSt w0 w p s) :
+    (TrSt w0 (stopW pub w).1 (p ++ [.stopping]) .stopping ∧ (stopW pub w).2 ≠ none) ∨
+    TrSt w0 (stopW pub w).1 (p ++ [.stopping, .stopped]) .stopped := by
+  unfold stopW
+  have h1 := (h.set .stopping).pub hp .log
+  generalize pub (setSt w .stopping) .log = r1 at h1
+  obtain ⟨w1, o1⟩ := r1
+  cases o1 with
+  | some e => exact Or.inl ⟨h1, by simp [xbind]⟩
+  | none =>
+    simp only [xbind]
+    have h2 := h1.pub hp .stop
+    generalize pub w1 .stop = r2 at h2
+    obtain ⟨w2, o2⟩ := r2
+    cases o2 with
+    | some e => exact Or.inl ⟨h2, by simp⟩
+    | none =>
+      dsimp only
+      have h3 := (h2.set .stopped).pub hp .log
+      simp only [List.append_assoc, List.cons_append, List.nil_append] at h3
+      exact Or.inr h3
+
+theorem exitW_trace (pub : XPub) (hp : PubNC pub) (w0 w : XW) (p : List St) (s : St)
+    (h : TrSt w0 w p s) :
+    ((exitW pub w).2 ≠ none ∧
+      (TrSt w0 (exitW pub w).1 (p ++ [.stopping]) .stopping ∨
+       TrSt w0 (exitW pub w).1 (p ++ [.stopping, .stopped]) .stopped)) ∨
+    TrSt w0 (exitW pub w).1 (p ++ [.stopping, .stopped, .exiting]) .exiting := by
+  have hs := stopW_trace pub hp w0 w p s h
+  have key : ∀ r : XW × XO,
+      r = (xbind (stopW pub w) fun w1 => xbind (pub (setSt w1 .exiting) .log) fun w2 =>
+            xbind (pub w2 .exit) fun w3 => pub w3 .log) →
+      (r.2 ≠ none ∧ (TrSt w0 r.1 (p ++ [.stopping]) .stopping ∨
+        TrSt w0 r.1 (p ++ [.stopping, .stopped]) .stopped)) ∨
+      TrSt w0 r.1 (p ++ [.stopping, .stopped, .exiting]) .exiting := by
+    intro r hr
+    generalize stopW pub w = rs at hs hr
+    obtain ⟨w1, o1⟩ := rs
+    cases o1 with
+    | some e =>
+      simp only [xbind] at hr; subst hr
+      rcases hs with ⟨a, _⟩ | a
+      · exact Or.inl ⟨by simp, Or.inl a⟩
+      · exact Or.inl ⟨by simp, Or.inr a⟩
+    | none =>
+      rcases hs with ⟨_, b⟩ | a
+      · exact absurd rfl b
+      · simp only [xbind] at hr
+        have h2 := (a.set .exiting).pub hp .log
+        simp only [List.append_assoc, List.cons_append, List.nil_append] at h2
+        generalize pub (setSt w1 .exiting) .log = r2 at h2 hr
+        obtain ⟨w2, o2⟩ := r2
+        cases o2 with
+        | some e => dsimp only at hr; subst hr; exact Or.inr h2
+        | none =>
+          dsimp only at hr
+          have h3 := h2.pub hp .exit
+          generalize pub w2 .exit = r3 at h3 hr
+          obtain ⟨w3, o3⟩ := r3
+          cases o3 with
+          | some e => dsimp only at hr; subst hr; exact Or.inr h3
+          | none => dsimp only at hr; subst hr; exact Or.inr (h3.pub hp .log)
+  unfold exitW
+  have k := key _ rfl
+  generalize (xbind (stopW pub w) fun w1 => xbind (pub (setSt w1 .exiting) .log) fun w2 =>
+            xbind (pub w2 .exit) fun w3 => pub w3 .log) = r at k
+  obtain ⟨w', o⟩ := r
+  cases o with
+  | none =>
+    dsimp only
+    rcases k with ⟨a, _⟩ | a
+    · exact absurd rfl a
+    · split
+      · exact Or.inr a
+      · exact Or.inr a
+  | some e =>
+    dsimp only
+    rcases k with ⟨_, a⟩ | a
+    · split
+      · exact Or.inl ⟨by simp, a⟩
+      · exact Or.inl ⟨by simp, a⟩
+    · split
+      · exact Or.inr a
+      · exact Or.inr a
+
+/-- where the shutdown after a failed `start()` can leave the bus -/
+def exitTails : List (List St) := [[], [.stopping], [.stopping, .stopped], [.stopping, .stopped, .exiting]]
+
+def pathEnd (p : List St) (d : St) : St := p.getLast?.getD d
+
+theorem startFailW_trace (pub : XPub) (hp : PubNC pub) (w0 w3 : XW) (q : List St) (s : St)
+    (h : TrSt w0 w3 q s) (e : XExc) :
+    (startFailW pub w3 e).2 ≠ none ∧
+    ∃ x ∈ exitTails, TrSt w0 (startFailW pub w3 e).1 (q ++ x) (pathEnd x s) := by
+  unfold startFailW
+  split
+  · exact ⟨by simp, [], by simp [exitTails], by simpa [pathEnd] using h⟩
+  · have h4 := h.pub hp .log
+    generalize pub w3 .log = r4 at h4
+    obtain ⟨w4, o4⟩ := r4
+    cases o4 with
+    | some e4 => exact ⟨by simp [xbind], [], by simp [exitTails], by simpa [pathEnd, xbind] using h4⟩
+    | none =>
+      simp only [xbind]
+      have hx := exitW_trace pub hp w0 w4 q s h4
+      generalize exitW pub w4 = rx at hx
+      obtain ⟨w5, ox⟩ := rx
+      have hpaths : ∃ x ∈ exitTails, TrSt w0 w5 (q ++ x) (pathEnd x s) := by
+        rcases hx with ⟨_, a | a⟩ | a
+        · exact ⟨[.stopping], by simp [exitTails], by simpa [pathEnd] using a⟩
+        · exact ⟨[.stopping, .stopped], by simp [exitTails], by simpa [pathEnd] using a⟩
+        · exact ⟨[.stopping, .stopped, .exiting], by simp [exitTails], by simpa [pathEnd] using a⟩
+      cases ox with
+      | none => exact ⟨by simp, hpaths⟩
+      | some e' => dsimp only; split <;> exact ⟨by simp, hpaths⟩
+
+theorem startW_trace (pub : XPub) (hp : PubNC pub) (w : XW) (hn : NoCalls w.bus) :
+    ((startW pub w).2 = none ∧ TrSt w (startW pub w).1 [.starting, .started] .started) ∨
+    ((startW pub w).2 ≠ none ∧ ∃ q ∈ [[St.starting], [.starting, .started]], ∃ x ∈ exitTails,
+        TrSt w (startW pub w).1 (q ++ x) (pathEnd x (pathEnd q .starting))) := by
+  unfold startW
+  have h0 : TrSt w (setSt { w with atexit := w.atexit + 1 } .starting) [.starting] .starting :=
+    ⟨by simp [setSt], rfl, rfl, hn⟩
+  have h1 := h0.pub hp .log
+  generalize pub (setSt { w with atexit := w.atexit + 1 } .starting) .log = r1 at h1
+  obtain ⟨w1, o1⟩ := r1
+  cases o1 with
+  | some e =>
+    exact Or.inr ⟨by simp [xbind], [.starting], by simp, [], by simp [exitTails],
+      by simpa [xbind, pathEnd] using h1⟩
+  | none =>
+    simp only [xbind]
+    have h2 := h1.pub hp .start
+    generalize pub w1 .start = r2 at h2
+    obtain ⟨w2, o2⟩ := r2
+    cases o2 with
+    | some e =>
+      dsimp only
+      obtain ⟨hne, x, hx, ht⟩ := startFailW_trace pub hp w w2 _ _ h2 e
+      exact Or.inr ⟨hne, [.starting], by simp, x, hx, by simpa [pathEnd] using ht⟩
+    | none =>
+      dsimp only
+      have h3 := (h2.set .started).pub hp .log
+      simp only [List.cons_append, List.nil_append] at h3
+      generalize pub (setSt w2 .started) .log = r3 at h3
+      obtain ⟨w3, o3⟩ := r3
+      cases o3 with
+      | none => exact Or.inl ⟨rfl, h3⟩
+      | some e =>
+        dsimp only
+        obtain ⟨hne, x, hx, ht⟩ := startFailW_trace pub hp w w3 _ _ h3 e
+        exact Or.inr ⟨hne, [.starting, .started], by simp, x, hx, by simpa [pathEnd] using ht⟩
+
+/-- the state-assignment paths each lifecycle method can take when no listener calls a lifecycle
+    method itself; the last one is the path of a call that returns -/
+def paths : Meth → List (List St)
+  | .stop => [[.stopping], [.stopping, .stopped]]
+  | .exit => [[.stopping], [.stopping, .stopped], [.stopping, .stopped, .exiting]]
+  | .restart => [[.stopping], [.stopping, .stopped], [.stopping, .stopped, .exiting]]
+  | .graceful => [[]]
+  | .start => [[.starting],
+               [.starting, .stopping], [.starting, .stopping, .stopped],
+               [.starting, .stopping, .stopped, .exiting],
+               [.starting, .started, .stopping], [.starting, .started, .stopping, .stopped],
+               [.starting, .started, .stopping, .stopped, .exiting],
+               [.starting, .started]]
+
+/-- the edges of the state graph in the module docstring of `wspbus` -/
+def documentedEdge : St → St → Bool
+  | .stopped, .starting => true
+  | .starting, .started => true
+  | .started, .stopping => true
+  | .starting, .stopping => true
+  | .stopping, .stopped => true
+  | .stopped, .exiting => true
+  | _, _ => false
+
+def chainOK : List St → Bool
+  | a :: b :: rest => documentedEdge a b && chainOK (b :: rest)
+  | _ => true
+
+/-- every step inside such a path is an edge of the documented state graph -/
+theorem paths_follow_documented_graph : ∀ m, ∀ p ∈ paths m, chainOK p = true := by
+  intro m; cases m <;> decide
+
+/-- **C18 (re-entrant listeners) — the state follows the lifecycle.**  For ARBITRARY listener
+    scripts that do not call lifecycle methods themselves (re-entrant subscribe / unsubscribe /
+    publish at any depth, raising / exiting listeners, failing log listeners — F19 and F22
+    included), every lifecycle call assigns the states of one of the paths `paths m` (each a
+    chain of documented edges), leaves the bus in the last state of that path, and a call that
+    returns took the full path: start → STARTED, stop → STOPPED, exit/restart → EXITING,
+    graceful → unchanged. -/
+theorem lifecycle_trace_nocalls (fuel : Nat) (w : XW) (hn : NoCalls w.bus) (m : Meth) :
+    ∃ p ∈ paths m, (callX fuel w m).1.tr = w.tr ++ p ∧
+      (callX fuel w m).1.bus.state = pathEnd p w.bus.state ∧
+      NoCalls (callX fuel w m).1.bus ∧
+      ((callX fuel w m).2 = none → p = (paths m).getLast?.getD []) := by
+  have hp := publishX_nc fuel
+  have hw : TrSt w w [] w.bus.state := ⟨by simp, rfl, rfl, hn⟩
+  unfold callX
+  cases m with
+  | stop =>
+    simp only [callWith]
+    rcases stopW_trace _ hp w w [] _ hw with ⟨a, b⟩ | a
+    · exact ⟨[.stopping], by simp [paths], by simpa using a.1, by simpa [pathEnd] using a.2.1, a.2.2.2,
+        fun h => absurd h b⟩
+    · exact ⟨[.stopping, .stopped], by simp [paths], by simpa using a.1, by simpa [pathEnd] using a.2.1,
+        a.2.2.2, fun _ => by simp [paths]⟩
+  | exit =>
+    simp only [callWith]
+    rcases exitW_trace _ hp w w [] _ hw with ⟨b, a | a⟩ | a
+    · exact ⟨[.stopping], by simp [paths], by simpa using a.1, by simpa [pathEnd] using a.2.1, a.2.2.2,
+        fun h => absurd h b⟩
+    · exact ⟨[.stopping, .stopped], by simp [paths], by simpa using a.1, by simpa [pathEnd] using a.2.1,
+        a.2.2.2, fun h => absurd h b⟩
+    · exact ⟨[.stopping, .stopped, .exiting], by simp [paths], by simpa using a.1,
+        by simpa [pathEnd] using a.2.1, a.2.2.2, fun _ => by simp [paths]⟩
+  | restart =>
+    simp only [callWith, restartW]
+    have key := exitW_trace _ hp { w with bus := { w.bus with execv := true } }
+      { w with bus := { w.bus with execv := true } } [] w.bus.state ⟨by simp, rfl, rfl, hn⟩
+    rcases key with ⟨b, a | a⟩ | a
+    · exact ⟨[.stopping], by simp [paths], by simpa using a.1, by simpa [pathEnd] using a.2.1, a.2.2.2,
+        fun h => absurd h b⟩
+    · exact ⟨[.stopping, .stopped], by simp [paths], by simpa using a.1, by simpa [pathEnd] using a.2.1,
+        a.2.2.2, fun h => absurd h b⟩
+    · exact ⟨[.stopping, .stopped, .exiting], by simp [paths], by simpa using a.1,
+        by simpa [pathEnd] using a.2.1, a.2.2.2, fun _ => by simp [paths]⟩
+  | graceful =>
+    simp only [callWith, gracefulW]
+    have h1 := hw.pub hp .log
+    generalize publishX fuel w .log = r1 at h1
+    obtain ⟨w1, o1⟩ := r1
+    cases o1 with
+    | some e => exact ⟨[], by simp [paths], by simpa [xbind] using h1.1, by simpa [xbind, pathEnd] using h1.2.1,
+        by simpa [xbind] using h1.2.2.2, fun _ => by simp [paths]⟩
+    | none =>
+      have h2 := h1.pub hp .graceful
+      exact ⟨[], by simp [paths], by simpa [xbind] using h2.1, by simpa [xbind, pathEnd] using h2.2.1,
+        by simpa [xbind] using h2.2.2.2, fun _ => by simp [paths]⟩
+  | start =>
+    simp only [callWith]
+    rcases startW_trace _ hp w hn with ⟨b, a⟩ | ⟨b, q, hq, x, hx, a⟩
+    · exact ⟨[.starting, .started], by simp [paths], a.1, by simpa [pathEnd] using a.2.1, a.2.2.2,
+        fun _ => by simp [paths]⟩
+    · refine ⟨q ++ x, ?_, a.1, ?_, a.2.2.2, fun h => absurd h b⟩
+      · simp only [List.mem_cons, List.not_mem_nil, or_false] at hq
+        simp only [exitTails, List.mem_cons, List.not_mem_nil, or_false] at hx
+        rcases hq with rfl | rfl <;> rcases hx with rfl | rfl | rfl | rfl <;> simp [paths]
+      · rw [a.2.1]
+        simp only [List.mem_cons, List.not_mem_nil, or_false] at hq
+        simp only [exitTails, List.mem_cons, List.not_mem_nil, or_false] at hx
+        rcases hq with rfl | rfl <;> rcases hx with rfl | rfl | rfl | rfl <;> simp [pathEnd]
+
 end CpProofs.C18X
